@@ -64,6 +64,15 @@ class NT(typing.NamedTuple):
     p: int
     q: tuple[int, ...] = ()
 
+@dataclasses.dataclass
+class Wide:
+    x: int
+    y: int
+
+@dataclasses.dataclass
+class Narrow:
+    x: int
+
 AL = typing.TypeAliasType("AL", list[int])
 SAL = typing.TypeAliasType("SAL", "dict[str, list[int]]")
 NTy = typing.NewType("NTy", dict[str, int])
@@ -112,6 +121,11 @@ TYPES = {
     "Union[str, int]": ("typing.Union[str, int]", ["1", "'a'", "'1'"], ["'1'", "1", "'a'", "b'1'"]),
     "int | None | str": ("int | None | str", ["1", "None", "'x'"], ["'1'", "None", "'x'"]),
     "str | None | int": ("str | None | int", ["1", "None", "'x'"], ["'1'", "None", "'x'"]),
+    # unions whose members both accept some non-text inputs: which member takes an input must not depend on
+    # what the routine has seen before
+    "Literal[1, 2] | float": ("typing.Union[typing.Literal[1, 2], float]", ["1", "2.5"], ["3", "1", "2", "2.5", "'1'"]),
+    "Wide | Narrow": ("typing.Union[Wide, Narrow]", ["Wide(1, 2)", "Narrow(1)"], ["{'x': 1}", "{'x': 1, 'y': 2}", "{'x': '3', 'y': '4'}"]),
+    "tuple[int, int, int] | tuple[int, int]": ("typing.Union[tuple[int, int, int], tuple[int, int]]", ["(1, 2, 3)", "(1, 2)"], ["[1, 2]", "[1, 2, 3]", "['4', '5', '6']"]),
     "Literal[1, 2]": ("typing.Literal[1, 2]", ["1", "2"], ["'1'", "1", "2", "b'2'"]),
     "Literal[2, 1]": ("typing.Literal[2, 1]", ["1", "2"], ["'1'", "1", "2", "b'2'"]),
     "Optional[list[int]]": ("typing.Optional[list[int]]", ["None", "[1]"], ["None", "'[1]'", "[1]"]),
